@@ -58,6 +58,7 @@ class Check:
 
     def __init__(self, pid, tier, seed, level="model_checking"):
         self.pid, self.tier, self.seed, self.level = pid, tier, seed, level
+        run_scratch()
         self.t0 = time.time()
         self.states = 0
         self.transitions = 0
@@ -164,8 +165,38 @@ class Check:
 # ---------------------------------------------------------------------------------------------
 # parallel replay
 # ---------------------------------------------------------------------------------------------
+_RUN_SCRATCH = {"dir": None, "pid": None}
+
+
+def run_scratch():
+    """one scratch directory per check run for everything dask itself spills (the partd directories of disk shuffles are not
+    removed by dask): announced through DASK_TEMPORARY_DIRECTORY so that worker and child interpreters use it, removed when the
+    process that created it ends"""
+    import atexit
+    import shutil
+    import tempfile
+    d = os.environ.get("VERIF_RUN_SCRATCH")
+    if not d or not os.path.isdir(d):
+        d = tempfile.mkdtemp(prefix="verif_run.", dir=os.environ.get("VERIF_SCRATCH"))
+        os.environ["VERIF_RUN_SCRATCH"] = d
+        _RUN_SCRATCH.update(dir=d, pid=os.getpid())
+
+        def _cleanup():
+            if os.getpid() == _RUN_SCRATCH["pid"]:
+                shutil.rmtree(d, ignore_errors=True)
+        atexit.register(_cleanup)
+    os.environ["DASK_TEMPORARY_DIRECTORY"] = d
+    if "dask" in sys.modules:
+        import dask
+        dask.config.set(temporary_directory=d)
+    return d
+
+
 def _init_worker():
     os.environ[GUARD] = "1"
+    if os.environ.get("DASK_TEMPORARY_DIRECTORY"):
+        import dask as _dask
+        _dask.config.set(temporary_directory=os.environ["DASK_TEMPORARY_DIRECTORY"])
     os.environ.setdefault("PYTHONHASHSEED", "0")
     import warnings
     warnings.filterwarnings("ignore")
